@@ -103,24 +103,6 @@ func findFirstBetween(value, sub, start, finish any) (any, error) {
 		}
 	}
 
-	if i < 0 {
-		i = 0
-	} else if i > len(s) {
-		return nil, nil
-	} else {
-		n := 0
-		for j := 0; j < i; j++ {
-			_, sz := utf8.DecodeRuneInString(s[n:])
-			if sz == 0 {
-				return nil, nil
-			}
-
-			n += sz
-		}
-
-		i = n
-	}
-
 	j, isNum, ok := toInt(finish)
 	if !ok {
 		if !isNum {
@@ -143,6 +125,28 @@ func findFirstBetween(value, sub, start, finish any) (any, error) {
 		}
 	}
 
+	if len(s) == 0 || len(p) == 0 {
+		return nil, nil
+	}
+
+	if i < 0 {
+		i = 0
+	} else if i > len(s) {
+		return nil, nil
+	} else {
+		n := 0
+		for j := 0; j < i; j++ {
+			_, sz := utf8.DecodeRuneInString(s[n:])
+			if sz == 0 {
+				return nil, nil
+			}
+
+			n += sz
+		}
+
+		i = n
+	}
+
 	if j < 0 {
 		return nil, nil
 	} else if j > len(s) {
@@ -159,6 +163,10 @@ func findFirstBetween(value, sub, start, finish any) (any, error) {
 		}
 
 		j = n
+	}
+
+	if i > j {
+		return nil, nil
 	}
 
 	r := strings.Index(s[i:j], p)
@@ -207,6 +215,10 @@ func findFirstFrom(value, sub, start any) (any, error) {
 		return nil, &integerConversionError{
 			num: d,
 		}
+	}
+
+	if len(s) == 0 || len(p) == 0 {
+		return nil, nil
 	}
 
 	if i < 0 {
@@ -312,24 +324,6 @@ func findLastBetween(value, sub, start, finish any) (any, error) {
 		}
 	}
 
-	if i < 0 {
-		i = 0
-	} else if i > len(s) {
-		return nil, nil
-	} else {
-		n := 0
-		for j := 0; j < i; j++ {
-			_, sz := utf8.DecodeRuneInString(s[n:])
-			if sz == 0 {
-				return nil, nil
-			}
-
-			n += sz
-		}
-
-		i = n
-	}
-
 	j, isNum, ok := toInt(finish)
 	if !ok {
 		if !isNum {
@@ -352,6 +346,28 @@ func findLastBetween(value, sub, start, finish any) (any, error) {
 		}
 	}
 
+	if len(s) == 0 || len(p) == 0 {
+		return nil, nil
+	}
+
+	if i < 0 {
+		i = 0
+	} else if i > len(s) {
+		return nil, nil
+	} else {
+		n := 0
+		for j := 0; j < i; j++ {
+			_, sz := utf8.DecodeRuneInString(s[n:])
+			if sz == 0 {
+				return nil, nil
+			}
+
+			n += sz
+		}
+
+		i = n
+	}
+
 	if j < 0 {
 		return nil, nil
 	} else if j > len(s) {
@@ -368,6 +384,10 @@ func findLastBetween(value, sub, start, finish any) (any, error) {
 		}
 
 		j = n
+	}
+
+	if i > j {
+		return nil, nil
 	}
 
 	r := strings.LastIndex(s[i:j], p)
@@ -416,6 +436,10 @@ func findLastFrom(value, sub, start any) (any, error) {
 		return nil, &integerConversionError{
 			num: d,
 		}
+	}
+
+	if len(s) == 0 || len(p) == 0 {
+		return nil, nil
 	}
 
 	if i < 0 {
